@@ -209,6 +209,14 @@ def _setup(ctx, state):
         from grid.rtransform import KnowlesRTransform
 
         rg = KnowlesRTransform(rad[1], rad[2], rad[3]).transform_1d_grid(rule(g["nr"]))
+    elif rad[0] in ("exp", "power"):
+        # a map that takes its scale from the first grid it sees (b=None); the very same object, inverted, is the map
+        # the radial ODEs are solved through - and the caller may make more radial grids from it later on
+        from grid.onedgrid import UniformInteger
+        from grid.rtransform import ExpRTransform, PowerRTransform
+
+        state["infer_tf"] = (ExpRTransform if rad[0] == "exp" else PowerRTransform)(rad[1], rad[2])
+        rg = state["infer_tf"].transform_1d_grid(UniformInteger(rad[3]))
     else:
         raise ValueError(rad)
     if rad[0] != "becke":
@@ -227,7 +235,10 @@ def _setup(ctx, state):
     # the map the radial ODEs are solved through is the caller's choice too: the inverse of the map that made the radial
     # grid (the usual case), the inverse of another map of [-1, 1] onto the half line, or none at all (identity)
     ot = g.get("ode_tf") or ["inv_same"]
-    if ot[0] == "inv_same":
+    if "infer_tf" in state:
+        state["tf"] = InverseRTransform(state["infer_tf"])
+        ot = ["inv_same"]
+    elif ot[0] == "inv_same":
         state["tf"] = InverseRTransform(tf)
     elif ot[0] == "identity":
         from grid.rtransform import IdentityRTransform
@@ -515,6 +526,10 @@ def _op_solve(ctx, op, state):
         ctx.probes.hit("linearity-checked")
         if lin / lscale > LIN_FACTOR * ctx.spec["grid"]["tol"]:
             ctx.violate("linearity", "solve", "combo", f"V[a*rho1+b*rho2] - a*V[rho1] - b*V[rho2] = {lin:.3g} (> {LIN_FACTOR}*tol) with each solve under its own RNG draw")
+    if "infer_tf" in state:
+        # (runs whose radial map is a stateful object: plain potentials are kept and re-evaluated too)
+        state.setdefault("held_pots", []).append((f"plain:{which}", held["pot"], v.copy(), spec, shift))
+        del state["held_pots"][:-3]
     ctx.log.add(ctx.step, "solve", which, beh, bseed, h)
 
 
@@ -744,6 +759,21 @@ def _check_held_potentials(ctx, state, when):
             ctx.probes.hit("probe-buffer-moved-in-place")
 
 
+def _op_regrid(ctx, op, state):
+    """The caller makes another radial grid (another number of points) from the transform object it already used - a
+    convergence study.  Potentials handed out earlier must not notice."""
+    from grid.onedgrid import UniformInteger
+
+    tf = state.get("infer_tf")
+    if tf is None:
+        ctx.log.add(ctx.step, "regrid", "skip")
+        return
+    oc = _outcome(lambda: tf.transform_1d_grid(UniformInteger(int(op[1]))))
+    ctx.probes.hit("another-radial-grid-from-the-same-transform")
+    ctx.log.add(ctx.step, "regrid", op[1], oc[0])
+    _check_held_potentials(ctx, state, "after another radial grid was made from the same transform object")
+
+
 def _op_perturb(ctx, op, state):
     ctx.rng.perturb(op[1], op[2])
     ctx.faults.hit("rng:perturb-history")
@@ -771,7 +801,7 @@ def _op_restart(ctx, op, state):
     ctx.log.add(ctx.step, "restart")
 
 
-OPS = {"mrobust": _op_mrobust, "solve": _op_solve, "laplacian": _op_laplacian, "ivp": _op_ivp, "robust": _op_robust, "tweak_params": _op_tweak_params, "perturb": _op_perturb, "arm": _op_arm, "heal": _op_heal, "restart": _op_restart}
+OPS = {"mrobust": _op_mrobust, "regrid": _op_regrid, "solve": _op_solve, "laplacian": _op_laplacian, "ivp": _op_ivp, "robust": _op_robust, "tweak_params": _op_tweak_params, "perturb": _op_perturb, "arm": _op_arm, "heal": _op_heal, "restart": _op_restart}
 
 
 class PoissonSeamEngine:
@@ -877,7 +907,13 @@ class PoissonSeamEngine:
             # other radial grids / other maps for the radial ODEs (spherically symmetric densities only: the l > 0 channels
             # do not converge through the identity map), and probes beyond a modest cut-off radius
             if rng.random() < 0.5:
-                grid["radial"] = rng.choice([["linfin", 1e-3, rng.choice([10.0, 14.0])], ["knowles", grid["rmin"], grid["R"], 2]])
+                grid["radial"] = rng.choice([["linfin", 1e-3, rng.choice([10.0, 14.0])], ["knowles", grid["rmin"], grid["R"], 2],
+                                             [rng.choice(["exp", "power"]), 1e-6, 40.0, rng.choice([100, 120])]])
+                if grid["radial"][0] in ("exp", "power"):
+                    opts.clear()
+                    opts["include_origin"] = False  # (these grids start at 1e-6; the r = 0 node is left out, as their users do)
+                    grid["tol"] = 1e-4
+                    grid["nr"] = grid["radial"][3]
             grid["ode_tf"] = rng.choice([["identity"], ["identity"], ["inv_becke", rng.choice([0.0, 1e-4]), rng.choice([1.0, 2.5])], ["inv_linfin", 0.0, rng.choice([70.0, 200.0])]])
             if "boundary_scale" not in opts and rng.random() < 0.6:
                 opts["remove_large_pts"] = rng.choice([9.0, 15.0])
@@ -927,6 +963,13 @@ class PoissonSeamEngine:
                 ops.append(["restart"])
             else:
                 ops.append(["heal"])
+        if (grid.get("radial") or ["becke"])[0] in ("exp", "power"):
+            ops = [o for o in ops if o[0] in ("solve", "perturb")] or [["solve", "rho1", "uniform", 1, {"shared_params": True}]]
+            for o in ops:
+                if o[0] == "solve":
+                    o[4]["grid_b"] = False
+            ops.insert(rng.randint(1, len(ops)), ["regrid", rng.choice([60, 160, 200])])
+            ops.append(["solve", rng.choice(["rho1", "rho2"]), rng.choice(BEHAVIOURS), rng.randrange(1000), {"shared_params": True}])
         # crash-recovery pattern on the lazily loaded Coulomb table: good answer, restart, faulted first load, heal, retry
         if rng.random() < 0.35:
             z = rng.choice(ROBUST_ELEMENTS)
